@@ -525,6 +525,9 @@ def generate(tier, seed):
         elif i % 3 == 1:
             pts = [[p[0] - 2, p[1] * 0.5 - 1] for p in pts]          # negative and fractional coordinates
         yield "density", {"pts": pts, "sort": i % 4 != 0}, i < 10
+    # integer coordinates, some negative
+    yield "density", {"pts": [[0, -1], [1, 0], [0, -1], [2, -3], [1, 0], [1, 0], [-2, 2], [0, 3], [1, -3]], "sort": True}, True
+    yield "density", {"pts": [[-1, -1], [-1, -2], [0, -1], [-1, -1], [3, 0], [0, -4]], "sort": False}, True
     # signed zeros: -0.0 and 0.0 are the same coordinate
     yield "density", {"pts": [[0.0, 0.0], [-0.0, 0.0], [0.0, -0.0], [-0.0, -0.0], [1.0, 0.0], [1.0, -0.0], [0.0, 0.0], [2.0, 1.0]], "sort": True}, True
     yield "density", {"pts": [[-0.0, 1.0], [0.0, 1.0], [0.0, 1.0], [-0.0, 2.0], [3.0, 2.0], [3.0, 2.0]], "sort": False}, True
